@@ -134,6 +134,8 @@ def plan(prop, tier, seed):
              'grp_sib', 'multi_shift', 'multi_tb'], K=2 if q else 3, lazies=(True,))
         add(['tb2', 'tb_hy', 'hyb2'], K=3, until=4, lazies=(True,))
         add(['tbchain3', 'fanout', 'chain3'] if q else three, K=2, lazies=(True,))
+        add(['fanin', 'fanin_tb'], K=2, lazies=(True,), masks='all', extra={'no_self': ['C']})
+        add(['fanin_tb'], K=3, lazies=(True,), caches=(True,), masks='all', extra={'no_self': ['C']})
         add(['tb2', 'tb_ev', 'hyb2'], K=2 if q else 3, until='symnc', caches=(False,), lazies=(True,))
         if not q:
             add(['tb2', 'hyb2', 'tb_ev'], K=2, D=1, lazies=(True,))
